@@ -322,6 +322,17 @@ func (g *Gen) makeWorld() {
 			u.IdxVals["g2"] = []AV{S("s"), S("st"), S("t")}
 		}
 		u.IdxVals["l1"] = []AV{S("u"), S("v"), S("uv")}[:r.Range(2, 3)]
+		if r.Chance(0.3) {
+			// index key values that are proper prefixes of each other and go on with
+			// a character below the library's separator '.' (and below letters):
+			// an ordering of index entries by one rendered string differs from the
+			// ordering by (index key, primary key) exactly there
+			u.IdxVals["g1"] = []AV{S("p"), S("p-q"), S("q")}
+			if g2T != "N" {
+				u.IdxVals["g2"] = []AV{S("s"), S("s-t"), S("s!"), S("t")}
+			}
+			u.IdxVals["l1"] = []AV{S("u"), S("u-v"), S("u v")}
+		}
 		w.Tables = append(w.Tables, u)
 		// alternative definitions of this table name
 		nAlt := 1
